@@ -1,7 +1,7 @@
 (** * C04 — the impl header of fn / mod expansions with generic dependencies: the declared bounds bubble up exactly *)
 From Coq Require Import List String Ascii Bool.
-From Entrait Require Import Tok Syn Decode Opts Split FnParams Convert Codegen Expand Proj Proj2 Proj3 ProjSide Examples.
-From Entrait.Proofs Require Import Base Shapes NonVac PC05 PC04.
+From Entrait Require Import Tok Syn Tie Decode Opts Split FnParams Convert Codegen Expand Proj Proj2 Proj3 ProjSide Examples.
+From Entrait.Proofs Require Import Base PTie Shapes NonVac PC05 PC04.
 Import ListNotations.
 Local Open Scope string_scope.
 Local Open Scope list_scope.
@@ -95,6 +95,23 @@ Theorem c04_view_unrestricted_refuted2 :
                 ~ good (view_C04 (mkCtx VEntrait [TId "Foo"; comma; TId "no_deps"] c04_cex_input2) items).
 Proof. exact c04_view_refuted2. Qed.
 Print Assumptions c04_view_unrestricted_refuted2.
+
+(** The tie for the inline bounds of a generic parameter (coq/Tie.v, evaluated on every record of every run): a type / lifetime
+    parameter that passes the check prints exactly its bound list after its name - the lists [c04_declared_bounds] speaks about are
+    the bounds the user wrote, token for token. *)
+Theorem c04_inline_bounds_are_the_parameters_own_tokens : forall g b bs,
+  gp_kind g <> GConst -> gp_bounds g = b :: bs -> gparam_ok g = true ->
+  exists tail, gp_rest g = pc ":" :: join [plus] (b :: bs) ++ tail /\
+    (tail = [] \/ tail = [plus] \/ exists t u r, tail = t :: u :: r /\ (is_p "=" t = true \/ (is_p "+" t = true /\ is_p "=" u = true))).
+Proof. exact gparam_ok_decomposes. Qed.
+Print Assumptions c04_inline_bounds_are_the_parameters_own_tokens.
+
+(** [D: A + 'static = App] as synx hands it over, and the same tokens with a bound list that leaves [A] out *)
+Example c04_fields_example :
+  gparam_ok (mkGP GType [] "D" [pc ":"; TId "A"; pc "+"; pc "'"; TId "static"; pc "="; TId "App"] [[TId "A"]; [pc "'"; TId "static"]]) = true /\
+  gparam_ok (mkGP GType [] "D" [pc ":"; TId "A"; pc "+"; pc "'"; TId "static"; pc "="; TId "App"] [[pc "'"; TId "static"]]) = false.
+Proof. vm_compute. split; reflexivity. Qed.
+Print Assumptions c04_fields_example.
 
 Example c04_nonvacuous :
   forallb (nonvacuous view_C04g) [ex_fn; ex_fn_nodeps; ex_fn_export; ex_mod] = true.
